@@ -68,11 +68,35 @@ def gen_stream(rng, k, nops, B=4096):
     return out, tail
 
 
+KEY_FAMILIES = [
+    ["###", "@@@", "$$$", "!!!", "___", "   "], ["_/_", "_:_", "_ _", "___"], ["a/b", "a:b", "a b", "a_b", "a\\b"],
+    ["\u00e9", "\u00fc", "\u4e16", "e"], ["Ab", "aB", "ab", "AB"], [".", "..", "...", " .", ". ", "._", "../", "./"],
+    ["k", "k_", "k/", "k ", "_k", "/k"], ["", " ", "_", "/"], ["x" * 200 + "a", "x" * 200 + "b", "x" * 300, "x" * 255],
+    ["ns_1", "ns_2", "ns_", "ns"], ["tmp", "TMP", "t\u006dp", "t m p"],
+]
+KEYSETS = []          # filled by run(): groups of keys whose MODEL components differ pairwise
+
+
 def gen_case(rng, cid):
     n = rng.choice([2, 2, 2, 3])
     idirs = rng.random() < 0.4
-    hdr = "CASE %s mode=%s backend=%s sched=ms:1 trk=1 inst=%d%s" % (
-        cid, rng.choice(["strict", "strict", "alo:2"]), rng.choice(["fd", "mmap"]), n, " idirs=1" if idirs else "")
+    extra = ""
+    r = rng.random()
+    if KEYSETS and r < 0.35:
+        # namespace keys that sanitise differently (by the model of sanitize_namespace) but look alike:
+        # symbol-only keys of equal length, case variants, dot names, ... (seeded change c13b-1 — the
+        # fallback hash taken over the sanitised string — was missed with the fixed keys k, k2, k3)
+        ks = rng.choice([g for g in KEYSETS if len(g) >= n])
+        ks = rng.sample(ks, n)
+        extra = " keys=" + ",".join(k.encode().hex() or "00"[:0] for k in ks)
+        if any(k == "" for k in ks):
+            extra = ""
+    elif r < 0.55:
+        # instances that differ by DATA DIRECTORY taken from the environment at construction time (same key)
+        idirs = True
+        extra = " envdir=1"
+    hdr = "CASE %s mode=%s backend=%s sched=ms:1 trk=1 inst=%d%s%s" % (
+        cid, rng.choice(["strict", "strict", "alo:2"]), rng.choice(["fd", "mmap"]), n, " idirs=1" if idirs else "", extra)
     streams, tails = {}, {}
     for k in range(1, n + 1):
         quiet = k > 1 and rng.random() < 0.12          # an instance that only reads: no block ids of its own
@@ -235,6 +259,21 @@ def run(ctx):
     if os.path.isdir(cdir):
         for fn in sorted(os.listdir(cdir)):
             cases.append([l for l in open(os.path.join(cdir, fn)).read().split("\n") if l.strip()])
+    # key groups for gen_case: the model's directory component of every candidate key; a group keeps one key per component
+    flat = sorted(set(k for fam in KEY_FAMILIES for k in fam if k != ""))
+    comp, rc0, err0 = C.run_lines([driver, "sanitize"], [k.encode().hex() for k in flat])
+    if len(comp) == len(flat):
+        cmap = dict(zip(flat, comp))
+        del KEYSETS[:]
+        for fam in KEY_FAMILIES:
+            seen, grp = set(), []
+            for k in fam:
+                if k != "" and cmap[k] not in seen:
+                    seen.add(cmap[k]); grp.append(k)
+            if len(grp) >= 2:
+                KEYSETS.append(grp)
+    else:
+        broken.append(dict(kind="harness", what="model sanitize failed rc=%s %s" % (rc0, err0[-200:])))
     cases += build_cases(tier, rng)
     solo = [alone(c) for c in cases]
     res = T.run_cases(wh, cases + solo, "c13")
